@@ -204,6 +204,10 @@ impl<'v> Array<'v> {
             unsafe {
                 *self.iter_count.get() += 1;
             };
+            #[cfg(starlark_verif)]
+            crate::verif::emit("iter_start", 0, self as *const Self as usize as i64, unsafe {
+                *self.iter_count.get() as i64
+            });
         }
     }
 
@@ -212,6 +216,13 @@ impl<'v> Array<'v> {
             if !self.is_statically_allocated() {
                 debug_assert!(*self.iter_count.get() >= 1);
                 *self.iter_count.get() -= 1;
+                #[cfg(starlark_verif)]
+                crate::verif::emit(
+                    "iter_stop",
+                    0,
+                    self as *const Self as usize as i64,
+                    *self.iter_count.get() as i64,
+                );
             } else {
                 debug_assert!(*self.iter_count.get() == 0);
             }
